@@ -611,7 +611,7 @@ pub fn run(prop: &str) {
     rep.assume("quick tier bounds the history depth; states beyond the bound are still run to completion by the default policy");
     for v in found {
         let is_c10 = v.key.starts_with("c10:");
-        if is_c10 == (prop == "C10") {
+        if is_c10 == (prop == "C10") || v.key.starts_with("panic:") {
             rep.violation(v);
         }
     }
